@@ -1444,7 +1444,8 @@ fn main() {
     ctx.rule(
         "histories = op lists (attach/link/sync/unlink/drop remote, commands to 2 persistent + 1 transient value lane and 2 persistent + \
          1 transient map lane (colliding keys, update/remove/clear), handler programs that also set persistent and transient value/map \
-         stores, schedule ops: remote writes/reads <=n bytes, poll system <=k, settle, advance) with 1-4 remotes, channel capacities \
+         stores, bursts = 2-4 sets of one persistent lane + a sync of it delivered together and then polled in steps of 1-2 with the \
+         syncing remote reading in between, schedule ops: remote writes/reads <=n bytes, poll system <=k, settle, advance) with 1-4 remotes, channel capacities \
          1..4096 bytes, generated lane buffers / coop budget / select seed; each history is executed once per cut point: panic inside \
          mutating store call #n (before or after it took effect), drop after system poll #p, drop right after remote frame #f was read, \
          clean stop after op #j, inactivity timeout, kill at quiescence; then restart on the surviving store (half of the histories \
